@@ -60,7 +60,7 @@ theorem md5_mismatch_errors (P : Params) (toi maxSize : Nat) (ops : List Op) (st
   refine ⟨?_, C09.terminal_by_drop P toi maxSize ops st' h⟩
   apply Classical.byContradiction
   intro hc
-  exact hne ((C09.complete_only_when_all_written P toi maxSize ops st' h hc).2 m hm hchk htl)
+  exact hne ((C09.complete_only_when_all_written P toi maxSize ops st' h hc).2.1 m hm hchk htl)
 
 /-- `complete` => exactly the announced number of bytes was written (cenc null) and the digest matched when checked,
     for ALL histories (also corrupted packets) and every cenc. -/
@@ -68,7 +68,8 @@ theorem complete_length_and_digest (P : Params) (toi maxSize : Nat) (ops : List 
     (h : run P (St.new toi maxSize) ops = .ok st') (hc : ¬ noComplete (drop st').out) :
     ((drop st').cenc = some .null → ∃ T, (drop st').tl = some T ∧ (drop st').written.length = T) ∧
     (∀ m, (drop st').md5 = some m → (drop st').md5Check = true → (drop st').tl ≠ some 0 →
-        P.md5 (drop st').written = m) :=
+        P.md5 (drop st').written = m) ∧
+    (∀ n, (drop st').cl = some n → (drop st').tl ≠ some 0 → (drop st').written.length = n) :=
   C09.complete_only_when_all_written P toi maxSize ops st' h hc
 
 /-- **complete ⇒ exact**, any scheme, under the sender facts and the codec contract (`GSess.Laws`): for every history of genuine
@@ -91,6 +92,62 @@ theorem complete_implies_exact (P : Params) (S : GSess) (L : S.Laws P.codec) (to
     | opened => exact absurd (hj.opened hw).nc hc
     | error => exact absurd (hj.error hw) hc
     | closed => exact hg.closed hw
+
+/-- **writes are a prefix of the object** (C09 clause "zero or more writes whose concatenation is a prefix of the object's
+    content"), any scheme under `GSess.Laws`, for every genuine history, every environment, at EVERY point of the history
+    (`ops` is any list: every prefix of a history is a history) where the writer has not been told `error`/`interrupted`:
+    the bytes accepted so far are a prefix of the transfer bytes - more precisely the first `k` blocks for some `k`.
+    NOT covered: the state after `error()` (the call itself writes nothing - `error_written` - but the invariant does not record
+    what was written during the op that ended in the error). -/
+theorem writes_are_prefix (P : Params) (S : GSess) (L : S.Laws P.codec) (toi maxSize : Nat) (ops : List Op) (st' : St)
+    (hops : ∀ op ∈ ops, GenOp S op) (h : run P (St.new toi maxSize) ops = .ok st')
+    (hw : st'.writer ≠ some .error) : st'.written <+: S.T := by
+  have hi := inv_run P _ ops (inv_new toi maxSize) h
+  have hj := jinv_run P _ ops (inv_new toi maxSize) (jinv_new P toi maxSize) h
+  have hg := ginv_run P S L _ ops (inv_new toi maxSize) (jinv_new P toi maxSize) (ginv_new S toi maxSize) hops h
+  cases hws : st'.writer with
+  | none => rw [(hj.none_ hws).1]; exact List.nil_prefix
+  | some ws =>
+    cases ws with
+    | idle => exact absurd hws hi.noIdle
+    | error => exact absurd hws hw
+    | closed => rw [hg.closed hws]; exact List.prefix_refl _
+    | opened =>
+      obtain ⟨T, C, h1, h2, h3, h4⟩ := (hj.opened hws).ex
+      by_cases hT : T = 0
+      · rw [(h3 hT).2]; exact List.nil_prefix
+      · obtain ⟨w, hbw, _⟩ := h4 hT
+        have := hg.opened hws w hbw
+        rw [this.1]; exact L.pre_prefix _ this.2
+
+/-- No-Code concretely (no contract) -/
+theorem writes_are_prefix_nocode (P : Params) (T : Bytes) (o : Oti) (hs : o.scheme = .noCode)
+    (he : 0 < o.e) (hb : 0 < o.b) (hb32 : o.b < 2 ^ 32) (hT : T.length < 2 ^ 32)
+    (toi maxSize : Nat) (ops : List Op) (st' : St)
+    (hops : ∀ op ∈ ops, GenOp (noCodeSession T o) op) (h : run P (St.new toi maxSize) ops = .ok st')
+    (hw : st'.writer ≠ some .error) : st'.written <+: T :=
+  writes_are_prefix P (noCodeSession T o) (noCodeSession_laws P.codec T o hs he hb hb32 hT) toi maxSize ops st' hops h hw
+
+/-- history-independent part, ALL histories (also corrupted packets): with cenc null an open or closed writer never got more
+    than transfer-length bytes -/
+theorem written_le_transfer_length (P : Params) (toi maxSize : Nat) (ops : List Op) (st' : St)
+    (h : run P (St.new toi maxSize) ops = .ok st') (hc : st'.cenc = some .null)
+    (hw : st'.writer = some .opened ∨ st'.writer = some .closed) :
+    ∃ T, st'.tl = some T ∧ st'.written.length ≤ T := by
+  have hj := jinv_run P _ ops (inv_new toi maxSize) (jinv_new P toi maxSize) h
+  cases hw with
+  | inr hcl =>
+    obtain ⟨T, h1, h2⟩ := (hj.closed hcl).len hc
+    exact ⟨T, h1, by omega⟩
+  | inl hop =>
+    obtain ⟨T, C, h1, h2, h3, h4⟩ := (hj.opened hop).ex
+    refine ⟨T, h1, ?_⟩
+    by_cases hT : T = 0
+    · rw [(h3 hT).2]; simp
+    · obtain ⟨w, _, _, _, _, e, _⟩ := h4 hT
+      have hC : C = .null := by rw [hc] at h2; simpa using h2.symm
+      have := (e hC).2
+      omega
 
 /-- **complete ⇒ exact, No-Code concretely** (no contract, every codec value): see the header. -/
 theorem complete_implies_exact_nocode (P : Params) (T : Bytes) (o : Oti) (hs : o.scheme = .noCode)
